@@ -156,8 +156,40 @@ def elem_gotype(s):
 
 # ---- scalars ---------------------------------------------------------------------------------
 
+MODE = "c02"  # "c05": numbers from small vocabularies (the JSON model writes concrete numbers), alphanumeric texts
+
+
+def gen_scalar_c05(c, s, tag):
+    t, f = s["type"], s.get("format", "")
+    if t == "integer":
+        gt, lo, hi = INT_TYPES[(t, f)]
+        v = c.fresh("i")
+        vocab = [0, 7] if lo >= 0 else [0, -3]
+        if "enum" in s:
+            vocab = list(s["enum"]) + [0]
+        c.emit('%s := []int64{%s}[vChoice("%s", %d)]' % (v, ", ".join(str(x) for x in vocab), tag, len(vocab)))
+        return "%s(%s)" % (gt, v), "true", "%s == 0" % v
+    if t == "number":
+        gt = NUM_TYPES[(t, f)]
+        v = c.fresh("f")
+        c.emit('%s := []float64{0, 2.5}[vChoice("%s", 2)]' % (v, tag))
+        return "%s(%s)" % (gt, v), "true", "%s == 0" % v
+    if t == "string":
+        v = c.fresh("s")
+        c.emit('%s := vBytes("%s", 1)' % (v, tag))
+        c.emit("vAssume(vAlnum(%s))" % v)
+        if f in STR_FORMATS:
+            return "%s(%s)" % (STR_FORMATS[f], v), "true", "len(%s) == 0" % v
+        return v, "true", "len(%s) == 0" % v
+    v = c.fresh("b")
+    c.emit('%s := vBool("%s")' % (v, tag))
+    return v, "true", "!" + v
+
+
 def gen_scalar(c, s, tag):
     """returns (go expr of the base type, reference predicate, is-zero predicate)"""
+    if MODE == "c05":
+        return gen_scalar_c05(c, s, tag)
     t, f = s["type"], s.get("format", "")
     if t == "integer":
         gt, lo, hi = INT_TYPES[(t, f)]
@@ -458,7 +490,196 @@ def add_case(family, desc, s, name=None):
             c.emit("vAssume(%s)" % c.last_present)
     c.ref = r
     CASES.append(c)
+    build_c05_twin(name, family, desc, s)
     return name
+
+
+C05CASES = []
+
+
+def build_c05_twin(name, family, desc, s):
+    global MODE
+    MODE = "c05"
+    try:
+        c = Case(name, family, desc)
+        k = kind(s)
+        if k in ("object", "allof"):
+            e, _, _ = gen_object(c, s, name, name)
+            c.emit("m := %s" % e)
+        else:
+            e, _, _ = _orig_gen_value(c, s, name)
+            c.emit("m := %s(%s)" % (name, e))
+        c.schema = s
+        C05CASES.append(c)
+    except KeyError:
+        pass  # free-form (typeless) schemas have no value generator
+    finally:
+        MODE = "c02"
+
+
+# ---- equality of two decoded values of a schema (nil and empty containers are the same) -------------
+
+class Eq:
+    def __init__(self):
+        self.lines = []
+        self.n = 0
+
+    def fresh(self, b):
+        self.n += 1
+        return "%s%d" % (b, self.n)
+
+    def emit(self, ind, s):
+        self.lines.append("\t" * ind + s)
+
+
+def emit_eq(q, s, a, b, ind):
+    """a, b: Go expressions of the base (non-pointer) type of schema s"""
+    if is_ref(s):
+        t = deref(s)
+        if kind(t) in ("object", "allof"):
+            emit_eq_object(q, t, a, b, ind, refname(s))
+            return
+        emit_eq(q, t, a, b, ind)
+        return
+    k = kind(s)
+    if k == "scalar":
+        q.emit(ind, "ok = vAnd(ok, %s == %s)" % (a, b))
+        return
+    if k == "array":
+        items = s["items"]
+        i = q.fresh("i")
+        q.emit(ind, "ok = vAnd(ok, len(%s) == len(%s))" % (a, b))
+        q.emit(ind, "for %s := 0; %s < len(%s) && %s < len(%s); %s++ {" % (i, i, a, i, b, i))
+        ea, eb = "%s[%s]" % (a, i), "%s[%s]" % (b, i)
+        if elem_gotype(items).startswith("*"):
+            q.emit(ind + 1, "ok = vAnd(ok, (%s == nil) == (%s == nil))" % (ea, eb))
+            q.emit(ind + 1, "if %s != nil && %s != nil {" % (ea, eb))
+            emit_eq(q, items, "(*%s)" % ea, "(*%s)" % eb, ind + 2)
+            q.emit(ind + 1, "}")
+        else:
+            emit_eq(q, items, ea, eb, ind + 1)
+        q.emit(ind, "}")
+        return
+    if k == "map":
+        emit_eq_map(q, s["additionalProperties"], a, b, ind, False)
+        return
+    raise Exception("eq: " + k)
+
+
+def emit_eq_map(q, vs, a, b, ind, ptr_values):
+    kk, av, bv, has = q.fresh("k"), q.fresh("av"), q.fresh("bv"), q.fresh("has")
+    q.emit(ind, "ok = vAnd(ok, len(%s) == len(%s))" % (a, b))
+    q.emit(ind, "for %s, %s := range %s {" % (kk, av, a))
+    q.emit(ind + 1, "%s, %s := %s[%s]" % (bv, has, b, kk))
+    q.emit(ind + 1, "ok = vAnd(ok, %s)" % has)
+    q.emit(ind + 1, "if %s {" % has)
+    vs2 = dict(vs)
+    if not ptr_values:
+        vs2["_mapvalue"] = True
+    if elem_gotype(vs2).startswith("*"):
+        q.emit(ind + 2, "ok = vAnd(ok, (%s == nil) == (%s == nil))" % (av, bv))
+        q.emit(ind + 2, "if %s != nil && %s != nil {" % (av, bv))
+        emit_eq(q, vs, "(*%s)" % av, "(*%s)" % bv, ind + 3)
+        q.emit(ind + 2, "}")
+    else:
+        emit_eq(q, vs, av, bv, ind + 2)
+    q.emit(ind + 1, "}")
+    q.emit(ind, "}")
+
+
+def emit_eq_fields(q, s, a, b, ind):
+    props, req = dict(s.get("properties", {})), list(s.get("required", []))
+    for pn in sorted(props):
+        ps = props[pn]
+        k = kind(ps)
+        fa, fb = "%s.%s" % (a, goname(pn)), "%s.%s" % (b, goname(pn))
+        required = pn in req
+        pointer = False
+        if k in ("scalar", "refscalar"):
+            pointer = (required and not (ps.get("readOnly") and not ps.get("x-nullable"))) or ps.get("x-nullable", False)
+        elif k == "refobject":
+            pointer = True
+        if pointer:
+            q.emit(ind, "ok = vAnd(ok, (%s == nil) == (%s == nil))" % (fa, fb))
+            q.emit(ind, "if %s != nil && %s != nil {" % (fa, fb))
+            emit_eq(q, ps, "(*%s)" % fa, "(*%s)" % fb, ind + 1)
+            q.emit(ind, "}")
+        else:
+            emit_eq(q, ps, fa, fb, ind)
+
+
+def emit_eq_object(q, s, a, b, ind, tname):
+    if "allOf" in s:
+        for m in s["allOf"]:
+            if is_ref(m):
+                emit_eq_object(q, deref(m), "%s.%s" % (a, refname(m)), "%s.%s" % (b, refname(m)), ind, refname(m))
+            else:
+                emit_eq_fields(q, m, a, b, ind)
+        return
+    emit_eq_fields(q, s, a, b, ind)
+    if "additionalProperties" in s and "properties" in s:
+        emit_eq_map(q, s["additionalProperties"], "%s.%s" % (a, tname), "%s.%s" % (b, tname), ind, True)
+
+
+def write_c05():
+    out_dir = os.path.join(ROOT, "harness", "gen", "c05", "models")
+    os.makedirs(out_dir, exist_ok=True)
+    fams = []
+    for c in C05CASES:
+        if c.family not in fams:
+            fams.append(c.family)
+    L = ["//go:build verif", "", "// Code generated by tools/mkgen_models.py; DO NOT EDIT.", "", "package models", "",
+         "import (", '\t"encoding/json"', "", '\t"github.com/go-openapi/strfmt"', ")", "", "var _ strfmt.UUID", "", "func init() {"]
+    for fam in fams:
+        L.append('\tvRegister("VerifGenRT%s", VerifGenRT%s)' % (goname(fam), goname(fam)))
+    L += ["}", ""]
+    for fam in fams:
+        cs = [c for c in C05CASES if c.family == fam]
+        L.append("func VerifGenRT%s() {" % goname(fam))
+        L.append('\tk := vChoice("case", %d)' % len(cs))
+        L.append('\tif st := vParam("stride"); st > 1 && k%st != vParam("offset") {')
+        L.append("\t\tvAssume(false)")
+        L.append("\t}")
+        L.append("\tswitch k {")
+        for i, c in enumerate(cs):
+            L.append("\tcase %d:" % i)
+            L.append("\t\tvRT%s()" % c.name)
+        L.append("\t}")
+        L.append("}")
+        L.append("")
+    for c in C05CASES:
+        q = Eq()
+        s = c.schema
+        if kind(s) in ("object", "allof"):
+            emit_eq_object(q, s, "m", "m2", 1, c.name)
+        else:
+            emit_eq(q, s, "m", "m2", 1)
+        L.append("// %s: %s" % (c.name, c.desc))
+        L.append("func vRT%s() {" % c.name)
+        L.append("\tname := %s" % json.dumps(c.name + " (" + c.desc + ")"))
+        L += c.lines
+        L.append("\ttxt1, err := json.Marshal(m)")
+        L.append('\tvAssert(err == nil, name+": the model cannot be encoded")')
+        L.append("\tif err != nil {")
+        L.append("\t\treturn")
+        L.append("\t}")
+        L.append("\tvar m2 %s" % c.name)
+        L.append("\terr = json.Unmarshal(txt1, &m2)")
+        L.append('\tvCover("%s")' % c.family)
+        L.append('\tvAssert(err == nil, name+": the model cannot decode what it encoded")')
+        L.append("\tif err != nil {")
+        L.append("\t\treturn")
+        L.append("\t}")
+        L.append("\tok := true")
+        L += q.lines
+        L.append('\tvAssert(ok, name+": decoding the encoded model yields other values")')
+        L.append("\ttxt2, err2 := json.Marshal(m2)")
+        L.append('\tvAssert(err2 == nil && string(txt1) == string(txt2), name+": encoding the re-decoded model does not reproduce the text")')
+        L.append("}")
+        L.append("")
+    with open(os.path.join(out_dir, "zz_verif_roundtrip.go"), "w") as f:  # (zz_verif_rt.go is the runtime's name)
+        f.write("\n".join(L))
+    print("wrote %d C05 round-trip cases" % len(C05CASES))
 
 
 NUM_VARIANTS = [
@@ -568,6 +789,10 @@ def build():
         "additionalProperties": {"type": "integer", "format": "int32", "maximum": 7}})
     add_case("object", "declared properties next to additionalProperties of $ref objects", {"type": "object", "properties": {
         "a": {"type": "string", "minLength": 1}}, "additionalProperties": inner})
+    add_case("object", "declared properties next to additionalProperties that are maps", {"type": "object", "properties": {
+        "a": {"type": "string"}}, "additionalProperties": {"type": "object", "additionalProperties": {"type": "string", "maxLength": 2}}})
+    add_case("object", "declared properties next to additionalProperties that are arrays", {"type": "object", "properties": {
+        "a": {"type": "string"}}, "additionalProperties": {"type": "array", "maxItems": 2, "items": {"type": "integer", "format": "int32"}}})
     add_case("object", "required properties that are readOnly or have a default", {"type": "object", "required": ["r", "d", "s"], "properties": {
         "r": {"type": "string", "readOnly": True, "minLength": 2},
         "d": {"type": "integer", "default": 5, "minimum": 2},
@@ -728,11 +953,12 @@ def add_rt_case(family, desc, name, schema):
     add_def(name, schema)
     c = Case(name, family, desc)
     RT_ONLY.append(c)
+    build_c05_twin(name, family, desc, schema)
 
 
 def build_rt():
-    add_rt_case("roundtrip", "property required and readOnly", "RtReadOnly", {"type": "object", "required": ["id", "name"], "properties": {
-        "id": {"type": "integer", "format": "int64", "readOnly": True}, "name": {"type": "string"}, "note": {"type": "string", "readOnly": True}}})
+    add_rt_case("roundtrip", "property required and readOnly", "RtReadOnly", {"type": "object", "required": ["ident", "name"], "properties": {
+        "ident": {"type": "integer", "format": "int64", "readOnly": True}, "name": {"type": "string"}, "note": {"type": "string", "readOnly": True}}})
     add_rt_case("roundtrip", "properties named like struct tag options", "RtTagWords", {"type": "object", "properties": {
         "string": {"type": "integer", "format": "int32"}, "omitempty": {"type": "boolean"}}})  # a property named "-" is the known C16-S2b
     add_rt_case("roundtrip", "string enums with characters JSON escapes", "RtEnumOps", {"type": "object", "properties": {
@@ -740,16 +966,16 @@ def build_rt():
         "op": {"type": "string", "enum": ["<a", "<=b", "==c", ">d"]}, "join": {"type": "string", "enum": ["x&&y", "p||q"]}, "q": {"type": "string", "enum": ["a\"b", "back\\slash"]}}})
     uuid = add_def("UUID", {"type": "string", "minLength": 1})
     add_rt_case("roundtrip", "a definition named UUID referenced from property, items and map values", "RtNode", {"type": "object", "properties": {
-        "id": uuid, "children": {"type": "array", "items": uuid}, "byName": {"type": "object", "additionalProperties": uuid}}})
+        "ident": uuid, "children": {"type": "array", "items": uuid}, "byName": {"type": "object", "additionalProperties": uuid}}})
     add_rt_case("roundtrip", "required / counted arrays whose items are maps or free-form", "RtArrMaps", {"type": "object", "required": ["records"], "properties": {
         "records": {"type": "array", "minItems": 1, "maxItems": 3, "uniqueItems": True, "items": {"type": "object", "additionalProperties": {"type": "string"}}},
         "payloads": {"type": "array", "maxItems": 2, "items": {}},
         "counters": {"type": "array", "minItems": 1, "items": {"type": "object", "additionalProperties": {"type": "integer", "format": "int64"}}}}})
     add_rt_case("roundtrip", "bounds on properties of every numeric type", "RtBounds", {"type": "object", "properties": {
-        "a": {"type": "integer", "format": "int32", "minimum": -5, "maximum": 5, "exclusiveMaximum": True},
+        "a": {"type": "integer", "format": "int32", "minimum": 1, "maximum": 5, "exclusiveMaximum": True},
         "b": {"type": "number", "format": "float", "minimum": 0.5, "exclusiveMinimum": True},
         "c": {"type": "number", "maximum": 1000},  # larger bounds are printed in exponent form: known C18-S3a
-        "d": {"type": "string", "minLength": 0, "maxLength": 12, "pattern": "^[a-z]+$"},
+        "d": {"type": "string", "minLength": 1, "maxLength": 12, "pattern": "^[a-z]+$"},
         "e": {"type": "array", "minItems": 1, "maxItems": 3, "uniqueItems": True, "items": {"type": "string"}}}})
 
 
@@ -807,3 +1033,4 @@ if __name__ == "__main__":
     build_rt()
     write()
     write_c18()
+    write_c05()
